@@ -95,7 +95,7 @@ class Machine(object):
     def isolate(self, case):
         # a crash or abort of one implementation is a divergence, not a harness failure: the engine runs each chunk in a
         # forked child and, if that dies, repeats it with one child per case (engine._chunk)
-        return False
+        return case.get("kind") == "int_threads"       # simulated threads: always in a child of their own
 
     def classify_crash(self, case, pid, status, text):
         from .. import engine
@@ -110,6 +110,12 @@ class Machine(object):
     # ------------------------------------------------------------------ gen
     def gen(self, rng, tier, idx):
         r = rng.random()
+        if r < 0.015:
+            c = self.gen_int(rng)
+            c.update(kind="int_threads", threads=rng.choice([2, 2, 3, 4]),
+                     sched={"seed": rng.randrange(1 << 30), "line_k": rng.choice([2, 5, 12, 40]), "p_switch": rng.choice([0.3, 0.6, 0.9]),
+                            "max_switches": rng.choice([20, 60, 200])})
+            return c
         if r < 0.62:
             return self.gen_int(rng)
         if r < 0.93:
@@ -511,17 +517,65 @@ class Machine(object):
                 return "no-inverse"
         return None
 
+    def _run_log(self, cls, regs0, ops):
+        regs = [cls(v) for v in regs0]
+        out = []
+        for op in ops:
+            try:
+                r, _ = self._int_step(cls, regs, op)
+                out.append("skip" if isinstance(r, str) and r == "skip" else self._norm(r))
+            except Exception as e:
+                out.append(("exc", type(e).__name__))
+        return out, [int(x) for x in regs]
+
+    def run_int_threads(self, case, ctx):
+        """The same operation log executed by several simulated threads, each on its own registers, on one back-end at
+        a time: every thread must see what a single thread sees (a back-end that keeps per-class scratch state agrees
+        with the others only while nobody else is using it)."""
+        import Crypto
+        from .. import sched as S
+        from ..util import Rng
+        prefix = os.path.dirname(os.path.abspath(Crypto.__file__)) + os.sep
+        sc = case["sched"]
+        nt = case["threads"]
+        for n, c in self._classes():
+            seq = self._run_log(c, case["regs"], case["ops"])
+            results = [None] * nt
+
+            def make(i, c=c):
+                def prog(idx):
+                    results[i] = self._run_log(c, case["regs"], case["ops"])
+                return prog
+            sched = S.Sched(Rng(sc["seed"]), prefix, line_k=sc["line_k"], c_k=0, p_switch=sc["p_switch"], native_p=0.3,
+                            max_switches=sc["max_switches"])
+            ok = sched.run([make(i) for i in range(nt)], wall=60)
+            ctx.step(sched.points)
+            ctx.fault("sched.preempt", sched.switches)
+            ctx.fault("cfg.int=" + n)
+            ctx.obs(n, sched.digest())
+            ctx.state(("int_threads", n, nt, min(sched.switches, 40) // 10))
+            ctx.probe("threads_interleaved" if sched.switches else "threads_not_interleaved")
+            for i in range(nt):
+                if results[i] != seq:
+                    ctx.violate("replica/threads/%s" % n,
+                                "the %s integer back-end gives thread %d of %d another result than a single thread gets for the same "
+                                "operation log (%d context switches, schedule %s): the back-ends are not interchangeable under concurrency" % (
+                                    n, i, nt, sched.switches, sched.digest()),
+                                observed=self._short(results[i]), expected=self._short(seq))
+
     def run_int(self, case, ctx):
         classes = self._classes()
         regs = {n: [c(v) for v in case["regs"]] for n, c in classes}
         ctx.state(("int", len(classes)))
-        for op in case["ops"]:
+        for opi, op in enumerate(case["ops"]):
             ctx.step()
             outs = {}
+            raw = {}
             pre = self._precondition(regs[classes[0][0]], op)
             for n, c in classes:
                 try:
                     r, p = self._int_step(c, regs[n], op)
+                    raw[n] = r
                     outs[n] = ("skip",) if isinstance(r, str) and r == "skip" else ("ok", self._norm(r))
                 except Exception as e:
                     outs[n] = ("exc", type(e).__name__, str(e)[:80])
@@ -554,6 +608,16 @@ class Machine(object):
                 ctx.violate("replica/Integer.%s/raise-vs-return" % op[0],
                             "one integer back-end raises where another returns a result for %s%s" % (op[0], self._describe(case, op)),
                             observed={k: (v[1] if v[0] == "exc" else self._short(v[1])) for k, v in outs.items()}, expected="identical behaviour")
+            # the caller keeps some results: a result that is a new object on one back-end and an alias of an operand
+            # on another shows as soon as a later in-place operation touches either (registers compared after every op)
+            if kinds == {"ok"} and opi % 2 == 0 and all(isinstance(raw.get(n), c) for n, c in classes) \
+                    and not any(raw[n] is regs[n][op[1]] for n, _ in classes if op[0] in ("iadd", "isub", "imul", "imod", "inplace_pow", "inplace_inverse", "set")) \
+                    and abs(int(raw[classes[0][0]])).bit_length() < 20000:
+                dst = (op[1] + 1 + opi) % len(regs[classes[0][0]])
+                if dst != op[1] or op[0] not in ("iadd", "isub", "imul", "imod", "inplace_pow", "inplace_inverse", "set", "ilshift", "irshift"):
+                    for n, _ in classes:
+                        regs[n][dst] = raw[n]
+                    ctx.probe("result_kept_in_register")
             # registers must stay in lock step
             snap = set(tuple(int(r) for r in regs[n]) for n, _ in classes)
             if len(snap) > 1:
@@ -767,7 +831,7 @@ class Machine(object):
             "assumptions": ["absence of AES-NI/CLMUL is simulated by flags and patched probes, not by running on other hardware",
                             "operands stay inside each method's evident mathematical domain apart from the four named precondition violations",
                             "the two modular square roots are equally acceptable: only r*r mod p and the range are compared"],
-            "expected_probes": ["precondition_no-inverse", "precondition_zero-modulus", "precondition_negative-exponent", "precondition_non-residue",
+            "expected_probes": ["threads_interleaved", "result_kept_in_register", "precondition_no-inverse", "precondition_zero-modulus", "precondition_negative-exponent", "precondition_non-residue",
                                 "precondition_negative-sqrt", "proc_replica_default=IntegerGMP", "proc_replica_custom=IntegerCustom",
                                 "proc_replica_native=IntegerNative"],
             "not_reached": ["32-bit limbs (multiply_32.c is never compiled here)"],
